@@ -166,6 +166,54 @@ def promote_ops(path):
     return []
 
 
+class _ProbeFile:
+    """stands for `file_like` while `_is_appendable` is run over its finite decision domain"""
+    def __init__(self, seekable, pos, name, readable):
+        self._s, self._p, self._r = seekable, pos, readable
+        if name is not None:
+            self.name = name
+
+    def seekable(self):
+        return self._s
+
+    def tell(self):
+        return self._p
+
+    def readable(self):
+        return self._r
+
+
+def appendable_table(path):
+    """`_is_appendable` decides on seekable(), tell() != 0, the name "<stdout>" and readable() only: running it in
+    isolation on the 24 combinations tabulates it -> (seekable, pos != 0, name is <stdout>, readable, outcome)"""
+    tree = ast.parse(open(path).read())
+    for fn in tree.body:
+        if isinstance(fn, ast.FunctionDef) and fn.name == "_is_appendable":
+            names = {n.id for n in ast.walk(fn) if isinstance(n, ast.Name)}
+            allowed = {"file_like", "getattr", "ValueError", "hasattr", "bool", "str", "True", "False"}
+            if not names <= allowed:
+                raise Unsupported("_is_appendable refers to " + ", ".join(sorted(names - allowed)))
+            env = {}
+            exec(compile(ast.Module(body=[fn], type_ignores=[]), path, "exec"),
+                 {"__builtins__": {"getattr": getattr, "ValueError": ValueError, "hasattr": hasattr, "bool": bool, "str": str}}, env)
+            f = env["_is_appendable"]
+            out = []
+            for seekable in (False, True):
+                for pos in (0, 5):
+                    for name in ("<stdout>", "data.avro", None):
+                        for readable in (False, True):
+                            try:
+                                r = f(_ProbeFile(seekable, pos, name, readable))
+                                o = "true" if r is True else "false" if r is False else "other"
+                            except ValueError:
+                                o = "ValueError"
+                            except Exception as e:  # noqa
+                                o = type(e).__name__
+                            out.append((seekable, pos != 0, name == "<stdout>", readable, o))
+            return out
+    return []
+
+
 def generation_ranges(repo):
     """the integer ranges `gen_data` draws from, per (type, logical type): every
     `return random.randint(A, B)` with its enclosing `record_type == T` / `logical_type == L` tests,
@@ -305,6 +353,14 @@ def render(repo):
     out.append("]\n")
     out.append("def promoteOps : List (String × String × String) := [")
     out.append(",\n".join("  (%s, %s, %s)" % (lean_str(a), lean_str(b), lean_str(c)) for a, b, c in pops))
+    out.append("]\n")
+    try:
+        at = appendable_table(os.path.join(fa, "_write_common.py"))
+    except Exception:
+        at = []
+    out.append("/-- `_is_appendable` tabulated: (seekable(), tell() != 0, name == \"<stdout>\", readable(), outcome) -/")
+    out.append("def appendableTable : List (Bool × Bool × Bool × Bool × String) := [")
+    out.append(",\n".join("  (%s, %s, %s, %s, %s)" % tuple(["true" if x else "false" for x in row[:4]] + [lean_str(row[4])]) for row in at))
     out.append("]\n")
     try:
         gr = generation_ranges(repo)
